@@ -68,7 +68,9 @@ def cpu_budget(seconds: float):
 
 
 def guarded(fn, seconds=10.0):
-    """Run fn() under the CPU budget. Returns ('ok', value) | ('exc', exception) | ('hang', None)."""
+    """Run fn() under the CPU budget. Returns ('ok', value) | ('exc', exception) | ('hang', None).
+    Memory exhaustion (RLIMIT_AS) counts as 'hang'; the exception (whose traceback pins the frames
+    holding the memory) is dropped and the garbage collected before returning."""
     try:
         with cpu_budget(seconds):
             return ("ok", fn())
@@ -76,10 +78,13 @@ def guarded(fn, seconds=10.0):
         return ("hang", None)
     except RecursionError as e:
         return ("exc", e)
-    except MemoryError as e:
-        return ("hang", e)
+    except MemoryError:
+        pass
     except Exception as e:  # noqa
         return ("exc", e)
+    import gc
+    gc.collect()
+    return ("hang", None)
 
 
 def exc_sig(e) -> str:
@@ -208,20 +213,35 @@ class CheckBase:
         return [{"cases": cases[i:i + size]} for i in range(0, len(cases), size)]
 
 
-def _worker(args):
+def mem_limit(jobs):
+    """Address-space limit per worker: all workers together stay below ~60 % of the machine's
+    memory (a change that makes the code under test allocate without bound must end in MemoryError
+    inside the worker, not in the kernel's OOM killer)."""
+    try:
+        total = os.sysconf("SC_PAGE_SIZE") * os.sysconf("SC_PHYS_PAGES")
+    except (ValueError, OSError):
+        total = 16 << 30
+    return int(max(1 << 30, min(6 << 30, 0.6 * total / max(1, jobs))))
+
+
+def _worker(args, limit=6 << 30):
     cls_mod, cls_name, tier, seed, shard = args
     import importlib
     mod = importlib.import_module(cls_mod)
     chk = getattr(mod, cls_name)(tier, seed)
     rep = Report(seed)
     try:
-        resource.setrlimit(resource.RLIMIT_AS, (6 << 30, 6 << 30))
+        resource.setrlimit(resource.RLIMIT_AS, (limit, limit))
     except Exception:
         pass
     try:
         chk.run_shard(shard, rep)
     except BudgetExceeded:
         rep.case({"shard": shard}, ok=False, klass="hang-outside-case", detail="budget exceeded outside a guarded case", sig="hang-outside-case")
+    except MemoryError:
+        import gc
+        gc.collect()
+        rep.case({"shard": shard}, ok=False, klass="memory-outside-case", detail="memory limit exceeded outside a guarded case", sig="memory-outside-case")
     except Exception as e:  # harness bug
         return ("harness_error", f"{type(e).__name__}: {e}\n{traceback.format_exc()}", shard)
     rep._nt_keys = set()
@@ -232,8 +252,48 @@ def _worker(args):
     return ("ok", rep, shard)
 
 
+def _child_loop(conn, limit):
+    """Worker process: receives task tuples, answers with result tuples, until None arrives."""
+    import gc
+    signal.signal(signal.SIGINT, signal.SIG_IGN)
+    while True:
+        try:
+            task = conn.recv()
+        except (EOFError, OSError):
+            break
+        if task is None:
+            break
+        idx, args = task
+        try:
+            res = _worker(args, limit)
+        except BaseException as e:  # noqa -- never let a worker die silently
+            res = ("harness_error", f"{type(e).__name__}: {e}\n{traceback.format_exc()}", args[4])
+        for attempt in range(3):
+            try:
+                conn.send((idx, res))
+                break
+            except MemoryError:
+                gc.collect()
+                if attempt == 1:
+                    res = ("harness_error", "MemoryError while sending the shard result", args[4])
+    os._exit(0)
+
+
+class _Proc:
+    def __init__(self, ctx, limit):
+        self.parent_conn, child_conn = ctx.Pipe()
+        self.p = ctx.Process(target=_child_loop, args=(child_conn, limit), daemon=True)
+        self.p.start()
+        child_conn.close()
+        self.task = None        # index of the shard in flight
+
+
 def run_check(chk: CheckBase, jobs=None):
-    """Run all shards on a pool; returns merged Report, harness errors list."""
+    """Run all shards on a pool of forked workers; returns merged Report, harness errors list.
+    A worker that dies (killed, segfault) does not stall the run: its shard is run once more in a fresh
+    worker; a second death is a violation for checks whose property bounds resources (death_is_violation),
+    a harness error otherwise."""
+    from multiprocessing.connection import wait
     jobs = jobs or int(os.environ.get("VERIF_JOBS", "0")) or min(16, os.cpu_count() or 1)
     shards = chk.shards()
     # seed only rotates the order in which shards are handed to workers
@@ -244,14 +304,82 @@ def run_check(chk: CheckBase, jobs=None):
     errors = []
     args = [(type(chk).__module__, type(chk).__name__, chk.tier, chk.seed, s) for s in shards]
     if jobs <= 1 or len(shards) <= 1:
-        results = map(_worker, args)
-        for r in results:
-            _collect(r, total, errors)
-    else:
-        ctx = mp.get_context("fork")
-        with ctx.Pool(min(jobs, len(shards)), maxtasksperchild=None) as pool:
-            for r in pool.imap_unordered(_worker, args, chunksize=1):
-                _collect(r, total, errors)
+        for a in args:
+            _collect(_worker(a, mem_limit(1)), total, errors)
+        total.n_shards = len(shards)
+        return total, errors
+    ctx = mp.get_context("fork")
+    n = min(jobs, len(shards))
+    limit = mem_limit(n)
+    procs = [_Proc(ctx, limit) for _ in range(n)]
+    pending = collections.deque(range(len(args)))
+    deaths = collections.Counter()
+    done = 0
+
+    def feed(pr):
+        pr.task = None
+        while pending:
+            i = pending.popleft()
+            try:
+                pr.parent_conn.send((i, args[i]))
+                pr.task = i
+                return
+            except OSError:     # the worker is gone (it had no shard in flight): replace it
+                pending.appendleft(i)
+                procs.remove(pr)
+                pr = _Proc(ctx, limit)
+                procs.append(pr)
+
+    for pr in procs:
+        feed(pr)
+    while done < len(args):
+        busy = [pr for pr in procs if pr.task is not None]
+        if not busy:
+            break
+        ready = wait([pr.parent_conn for pr in busy] + [pr.p.sentinel for pr in busy])
+        for pr in busy:
+            res = None
+            if pr.parent_conn in ready:
+                try:
+                    idx, res = pr.parent_conn.recv()
+                except (EOFError, OSError):
+                    res = None      # end of file: the worker is gone
+            if res is not None:
+                _collect(res, total, errors)
+                done += 1
+                feed(pr)
+            elif pr.parent_conn in ready or pr.p.sentinel in ready:
+                i = pr.task
+                pr.p.join(5)
+                code = pr.p.exitcode
+                deaths[i] += 1
+                total.notes["worker_deaths"] += 1
+                procs.remove(pr)
+                new = _Proc(ctx, limit)
+                procs.append(new)
+                if deaths[i] <= 1:
+                    pending.appendleft(i)
+                else:
+                    done += 1
+                    if getattr(chk, "death_is_violation", False):
+                        r = Report(chk.seed)
+                        r.case({"shard": shards[i]}, ok=False, klass="worker-died", sig="worker-died",
+                               detail={"observed": f"the process running this shard died twice (exit code {code})"})
+                        for v in r.violations:
+                            v["shard"] = shards[i]
+                        total.merge(r)
+                    else:
+                        errors.append((f"worker died twice (exit code {code}) while running a shard", shards[i]))
+                feed(new)
+    for pr in procs:
+        try:
+            pr.parent_conn.send(None)
+        except Exception:
+            pass
+    for pr in procs:
+        pr.p.join(2)
+        if pr.p.is_alive():
+            pr.p.kill()
     total.n_shards = len(shards)
     return total, errors
 
